@@ -4,10 +4,18 @@ import "github.com/creachadair/mds/slice"
 
 // C13: chunks always describe a correct patch from Left to Right.
 
+// vLineBytes is the length of the symbolic lines vMkLines builds (1 unless an
+// entry sets it).
+var vLineBytes = 1
+
 func vMkLines(n int, name string) []string {
 	out := make([]string, n)
 	for i := range out {
-		out[i] = string([]byte{vByte(name)})
+		b := make([]byte, vLineBytes)
+		for j := range b {
+			b[j] = vByte(name)
+		}
+		out[i] = string(b)
 	}
 	return out
 }
@@ -132,6 +140,16 @@ func vEditsUnchanged(es []Edit, snap []vEditSnap) bool {
 		}
 	}
 	return true
+}
+
+// VH_mdiff_ChunksWide: the same obligations for lines of several symbolic
+// bytes: long enough (>= 5 bytes) that any fixed-width digest of a line must
+// collide, so a comparison that looks only at a summary of the line is exposed
+// if the solver can construct the collision.
+func VH_mdiff_ChunksWide() {
+	vLineBytes = vCase("w")
+	vCover("wide-lines")
+	VH_mdiff_Chunks()
 }
 
 func VH_mdiff_Chunks() {
